@@ -212,6 +212,41 @@ pub fn load_families() -> Vec<Family> {
             versions,
         });
     }
+    // generated families: a program of the modelsim generator and edits of it
+    let n_gen: u64 = std::env::var("VERIF_GEN_FAMILIES").ok().and_then(|s| s.parse().ok()).unwrap_or(2);
+    let mut made = 0;
+    let mut i = 0u64;
+    while made < n_gen && i < 64 {
+        let mut rng = simcore::Rng::new(simcore::rng::derive_seed(0xFA, 4242, i));
+        i += 1;
+        let mut knobs = lang::gen::GenKnobs::draw(&mut rng);
+        knobs.max_rules = 5;
+        knobs.tempting = false;
+        let p = lang::gen::gen_program(&mut rng, &knobs);
+        if p.rules.len() < 3 || p.rules.iter().any(|r| r.name.is_none()) {
+            continue;
+        }
+        let mut versions = vec![("v0".to_string(), lang::print::program(&p))];
+        let mut q = p.clone();
+        q.rules.pop();
+        versions.push(("v1".to_string(), lang::print::program(&q)));
+        let mut q = p.clone();
+        q.rules[0].name = Some("renamed".to_string());
+        versions.push(("v2".to_string(), lang::print::program(&q)));
+        let mut q = p.clone();
+        let mut extra = q.rules[1].clone();
+        extra.name = Some("copyrule".to_string());
+        q.rules.push(extra);
+        versions.push(("v3".to_string(), lang::print::program(&q)));
+        let mut q = p.clone();
+        q.rules.swap(0, 1);
+        versions.push(("v4".to_string(), lang::print::program(&q)));
+        fams.push(Family {
+            name: format!("gen{}", ["a", "b", "c", "d", "e", "f", "g", "h"][made as usize % 8]),
+            versions,
+        });
+        made += 1;
+    }
     fams
 }
 
